@@ -102,6 +102,14 @@ def r_frame_contracts(idx, rep, fr_rets, families, rule="R-FRAMERET", floor=5, u
             for f in m.functions.values():
                 if not f.name.startswith("_") and any(pose_frames(p) for p in f.params()):
                     todo.append((f, None))
+    frames_only = set()
+    if "geometry" in families:
+        # every other public function of geometry.py that takes a pose (convert_box_to_face, convert_rectangle_to_segment, ...): the returned points AND directions
+        # are expressed in the pose's target frame; `pose[js, :3]` (rows of the rotation) are directions of the SOURCE frame
+        for f in idx.module(G).functions.values():
+            if not f.name.startswith("_") and not f.name.startswith("support_function_") and f.name != "convert_box_to_vertices" and any(pose_frames(p) for p in f.params()):
+                todo.append((f, None))
+                frames_only.add(f.key)
     if "utils" in families:
         for name in ("transform_point", "transform_points", "transform_directions", "inverse_transform_point"):
             f = idx.func("distance3d.utils::" + name)
@@ -125,7 +133,7 @@ def r_frame_contracts(idx, rep, fr_rets, families, rule="R-FRAMERET", floor=5, u
         key = "%s|returns frame %s" % (f.key, want)
         known = [x for x in frames if x is not None]
         not_points = [a for a in affs if a in ("D", "RP", "RT", "DB")]
-        is_direction_result = f.name in ("transform_directions",)
+        is_direction_result = f.name in ("transform_directions",) or f.key in frames_only
         if not_points and not is_direction_result:
             why = {"D": "a direction / offset", "RP": "a rotated position that still lacks the pose's translation", "RT": "a rotated translation",
                    "DB": "an offset from a frame origin"}[not_points[0]]
